@@ -91,6 +91,21 @@ func c09GenCase(r *vh.Rand, kind string, thorough bool) c09Case {
 	c := c09Case{Kind: kind, Seed: r.U64() % 1000000}
 	ng := []int{2, 3, 4, 6, 8, 12, 16}[r.Intn(7)]
 	c.Reps = r.Range(1, 3)
+	if kind == "wfstraggler" {
+		c.Par = r.Range(2, 3)
+		c.Reps = r.Range(3, 6)
+		if ng > 8 {
+			ng = 8
+		}
+		for i := 0; i < ng; i++ {
+			p := "invoke"
+			if r.Chance(30) {
+				p = "stream"
+			}
+			c.Calls = append(c.Calls, c09Call{In: "g", Paradigm: p})
+		}
+		return c
+	}
 	switch kind {
 	case "react", "host":
 		routes := []string{"ret", "norm", "none"}
@@ -173,7 +188,9 @@ func c09GenCase(r *vh.Rand, kind string, thorough bool) c09Case {
 	return c
 }
 
-func c09HasOracle(kind string) bool { return kind != "react" && kind != "host" }
+func c09HasOracle(kind string) bool {
+	return kind != "react" && kind != "host" && kind != "wfstraggler"
+}
 
 // ---- the model's view of a case ----
 
@@ -218,6 +235,13 @@ func c09OracleCase(c *c09Case) any {
 
 // expected results of the agents (closed form of the scripted models; no Lean model)
 func c09AgentExpected(kind string, call c09Call) string {
+	if kind == "wfstraggler" || kind == "wfstraggler3" {
+		aux := ""
+		if kind == "wfstraggler3" {
+			aux = "aux=aux(good-ID),"
+		}
+		return "bad:own;good:{" + aux + "check=check(good-ID),work=work(good-ID)}"
+	}
 	route := call.In[strings.LastIndex(call.In, ":")+1:]
 	if kind == "react" {
 		switch route {
@@ -467,7 +491,11 @@ func c09Evaluate(ctx *vh.Ctx, c *c09Case, ans *c09OracleAns) {
 		if ans != nil {
 			expected[i] = ans.Alone[i]
 		} else {
-			expected[i] = c09AgentExpected(c.Kind, call)
+			k := c.Kind
+			if k == "wfstraggler" && c.Par >= 3 {
+				k = "wfstraggler3"
+			}
+			expected[i] = c09AgentExpected(k, call)
 		}
 	}
 	if ans != nil {
@@ -559,7 +587,7 @@ func runC09(ctx *vh.Ctx) error {
 		return nil
 	}
 	// fixed opening: the agents and one object of every kind, then random kinds
-	kinds := []string{"react", "pregel", "dag", "workflow", "chain", "nested", "checkpoint", "host"}
+	kinds := []string{"react", "wfstraggler", "pregel", "dag", "workflow", "chain", "nested", "checkpoint", "host"}
 	n := ctx.N(64, 1200)
 	for i := 0; i < n && ctx.TimeLeft(); i++ {
 		kind := kinds[i%len(kinds)]
